@@ -317,3 +317,92 @@ class TapscriptVerdictBounded:
     def post_core_verdict(script, inputs, flags, result):
         want = core.verify_tapscript(inputs, script, set(flags))
         return want is None or result is want
+
+
+# ---- signature and public-key encoding rules under the policy flags -------------------------
+from spec.der import is_strict_der_sig  # noqa: E402
+
+_ENC_FLAGS = ["DERSIG", "STRICTENC", "LOW_S", "NULLFAIL", "WITNESS_PUBKEYTYPE", "CONST_SCRIPTCODE"]
+
+
+def _gen_sigenc(rng):
+    return dict(form=rng.choice(["bare", "bare", "p2wsh"]), sig_kind=rng.choice(["valid", "valid", "empty", "empty", "wrongkey", "high-s", "lax", "hashtype0", "hashtype4", "hashtype-acp0", "garbage"]),
+                key_kind=rng.choice(["compressed", "compressed", "uncompressed", "hybrid", "short"]), negate=rng.random() < 0.5, op0_prefix=rng.random() < 0.3,
+                d=rng.randrange(1, _C.n), flags=tuple(f for f in _ENC_FLAGS if rng.random() < 0.4))
+
+
+def sig_encoding_verdict(form, sig_kind, key_kind, negate, op0_prefix, d, flags):
+    """<key> OP_CHECKSIG [OP_NOT], optionally behind `OP_0 OP_DROP`, spent bare or as P2WSH with a
+    signature of the given kind; returns the engine's verdict"""
+    P = _C.mul(d, _C.G)
+    pk = {"compressed": sec_compressed(P), "uncompressed": b"\x04" + P[0].to_bytes(32, "big") + P[1].to_bytes(32, "big"),
+          "hybrid": bytes([6 + (P[1] & 1)]) + P[0].to_bytes(32, "big") + P[1].to_bytes(32, "big"), "short": b"\x02\x01\x02\x03\x04"}[key_kind]
+    script = (b"\x00\x75" if op0_prefix else b"") + push(pk) + b"\xac" + (b"\x91" if negate else b"")
+    fl = ScriptFlag(0)
+    for name in ("P2SH", "WITNESS") + tuple(flags):
+        fl |= getattr(ScriptFlag, name)
+    spk = script if form == "bare" else b"\x00\x20" + hashlib.sha256(script).digest()
+    tx = Tx(2, 0, [TxIn(OutPoint(b"\x04" * 32, 0), b"", 0xFFFFFFFF, Witness([]), check_validity=False)], [TxOut(900, b"\x51")], check_validity=False)
+    prevouts = [TxOut(3000, ScriptPubKey(spk, check_validity=False), check_validity=False)]
+    ht = {"hashtype0": 0, "hashtype4": 4, "hashtype-acp0": 0x80}.get(sig_kind, 1)
+    code = sh.find_and_delete_codeseparators(script.replace(b"\x00\x75", b"", 1) if False else script)
+    digest = sh.legacy(code, tx, 0, ht) if form == "bare" else sh.bip143(script, tx, 0, ht, 3000)
+    signer = d if sig_kind != "wrongkey" else (d % (_C.n - 1)) + 1
+    r, s, _ = sign_raw(_C, int.from_bytes(digest, "big"), signer, int.from_bytes(hashlib.sha256(digest).digest(), "big") % _C.n or 1)
+    s = min(s, _C.n - s)
+    if sig_kind == "high-s":
+        s = _C.n - s
+    if sig_kind == "empty":
+        sig = b""
+    elif sig_kind == "garbage":
+        sig = b"\x30\x03\x02\x01" + bytes([ht])
+    elif sig_kind == "lax":
+        rb = r.to_bytes(33, "big")      # R with null bytes it does not need
+        sb = der_sig(r, s)[4 + der_sig(r, s)[3]:]
+        body = b"\x02" + bytes([len(rb)]) + rb + sb
+        sig = b"\x30" + bytes([len(body)]) + body + bytes([ht])
+    else:
+        sig = der_sig(r, s) + bytes([ht])
+    if form == "bare":
+        tx.vin[0].script_sig = push(sig)
+    else:
+        tx.vin[0].script_witness = Witness([sig, script])
+    try:
+        verify_input(prevouts, tx, 0, fl)
+        return True, sig
+    except BTClibValueError:
+        return False, sig
+
+
+@contract("contracts.c_engine.sig_encoding_verdict", gen=_gen_sigenc, props="C08 C04", both_arms=True, n_quick=600, n_thorough=20000,
+          rule="<key> CHECKSIG [NOT] (optionally behind OP_0 DROP) bare and P2WSH x signatures {valid, empty, wrong key, high-s, lax DER, hash type 0 / 4 / 0x80, garbage} x keys {compressed, uncompressed, hybrid, malformed} x every subset of DERSIG, STRICTENC, LOW_S, NULLFAIL, WITNESS_PUBKEYTYPE, CONST_SCRIPTCODE")
+class SigEncodingBounded:
+    """Core's EvalChecksigPreTapscript: FindAndDelete (an error under CONST_SCRIPTCODE when it
+    finds the signature push, the empty one being OP_0), then CheckSignatureEncoding (empty is
+    allowed; DER under DERSIG|LOW_S|STRICTENC, low s under LOW_S, defined hash type under
+    STRICTENC), then CheckPubKeyEncoding -- for an empty signature too -- then the lax
+    verification, then NULLFAIL"""
+
+    def post_core_verdict(form, sig_kind, key_kind, negate, op0_prefix, flags, result):
+        got, sig = result
+        F = set(flags)
+        error = False
+        if form == "bare" and "CONST_SCRIPTCODE" in F and sig == b"" and op0_prefix:
+            error = True
+        if not error and sig != b"":
+            if F & {"DERSIG", "LOW_S", "STRICTENC"} and not is_strict_der_sig(sig[:-1]):
+                error = True
+            elif "LOW_S" in F and sig_kind == "high-s":
+                error = True
+            elif "STRICTENC" in F and not (1 <= (sig[-1] & ~0x80) <= 3):
+                error = True
+        if not error:
+            if "STRICTENC" in F and key_kind in ("hybrid", "short"):
+                error = True
+            if "WITNESS_PUBKEYTYPE" in F and form == "p2wsh" and key_kind != "compressed":
+                error = True
+        success = sig_kind in ("valid", "high-s", "lax", "hashtype0", "hashtype4", "hashtype-acp0") and key_kind != "short"
+        if not error and not success and "NULLFAIL" in F and sig != b"":
+            error = True
+        want = (not error) and (success != negate)
+        return got is want
